@@ -30,6 +30,8 @@ TRANSPARENT = {
     "std::pin::Pin::as_mut", "std::pin::Pin::get_mut", "std::pin::Pin::as_ref", "std::pin::Pin::get_ref",
     "std::sync::Arc::as_ref", "std::boxed::Box::new", "std::boxed::Box::pin",
     "std::convert::identity",
+    "tracing::instrument::Instrument::instrument", "tracing::instrument::Instrument::in_current_span",
+    "std::hint::must_use", "anyhow::__private::must_use",
 }
 
 MAXDEPTH = 60
